@@ -81,4 +81,50 @@ theorem nsiBetweennessDef_getD_enum (n : Nat) (a : Adj) (w : Nat → Rat) (d : D
   · simp [e]
   · simp only [if_neg e, sigma_eq_sigmaPaths, sigmaThru_eq_paths]
 
+/-! ### the public wrappers and the counting definition (unit weights) -/
+
+theorem take_drop_eq (l : List Nat) (o c : Nat) : (l.take (o + c)).drop o = (l.drop o).take c := by
+  rw [List.drop_take]; congr 1; omega
+
+theorem pathWt_one (p : List Nat) : pathWt (fun _ => 1) p = 1 := by
+  induction p with
+  | nil => simp [pathWt]
+  | cons x t ih => simp only [pathWt, List.map_cons, List.prod_cons] at ih ⊢; rw [ih]; ring
+
+theorem sum_map_pathWt_one (ps : List (List Nat)) :
+    (ps.map (pathWt fun _ => 1)).sum = ((ps.length : Nat) : Rat) := by
+  induction ps with
+  | nil => simp
+  | cons p t ih => simp only [List.map_cons, List.sum_cons, ih, pathWt_one, List.length_cons]; push_cast; ring
+
+theorem srcMaskOf_getD (n : Nat) (S : List Nat) (s : Nat) (hs : s < n) :
+    (srcMaskOf n (some S)).getD s false = S.contains s := by
+  simp [srcMaskOf, List.getD, hs]
+
+theorem srcMaskOf_none (n : Nat) : srcMaskOf n none = srcMaskOf n (some (List.range n)) := by
+  unfold srcMaskOf
+  apply List.ext_getElem
+  · simp
+  · intro i h1 h2
+    simp at h1
+    simp [h1]
+
+/-- with unit weights the enumeration form counts paths -/
+theorem enum_unit (n : Nat) (a : Adj) (d : DistFn) (S T : List Nat) (v : Nat) :
+    nsiBetweennessEnum n a (fun _ => 1) d (srcMaskOf n (some S)) T v = interregionalCount n a d S T v := by
+  unfold nsiBetweennessEnum interregionalCount
+  rw [div_one]
+  congr 1
+  apply List.map_congr_left
+  intro t _
+  by_cases e : v = t
+  · simp [e]
+  · rw [if_neg e, if_neg e, one_mul]
+    apply sumToQ_congrLt
+    intro s hs
+    unfold excess sigmaThruPaths sigmaPaths
+    rw [srcMaskOf_getD n S s hs, sum_map_pathWt_one, sum_map_pathWt_one]
+    by_cases h1 : (s != v) = true <;> by_cases h2 : S.contains s = true <;>
+      by_cases h3 : (d t s).isSome = true <;> simp [h1, h2, h3]
+
 end Pyunicorn.NetBetw
